@@ -32,7 +32,7 @@ def excluded(regions, x, y):
     return any(r.containsPoint(x, y) for r in regions)
 
 
-@guard.violation_on_hang(lambda m: [m])
+@guard.violation_on_hang(lambda m: [m], before=suites.plugin_env)
 def judge_plugin(st0, ops, props=None, classify=True):
     """Run ops on a real plugin; returns list of violation strings for the requested properties."""
     props = set(props or ["C10", "C11", "C12", "C13", "C15"])
@@ -216,7 +216,7 @@ def judge_plugin(st0, ops, props=None, classify=True):
     return out
 
 
-@guard.violation_on_hang(lambda m: [m])
+@guard.violation_on_hang(lambda m: [m], before=suites.plugin_env)
 def c10_fresh(st0, history, program):
     """C10: outputs after PRINT_STARTED equal those of a freshly initialised plugin with the same
     regions and settings. history/program: plugin ops; program only gcode/at/script ops."""
